@@ -40,6 +40,7 @@ inductive V where
   | ty (name : String)                            -- a class object
   | vars (id : Nat)                               -- a ScopeVars object
   | stream (xs : List V)                          -- a generator: the items it yields once it is consumed
+  | specobj (kind : String)                       -- an object of the spec itself, handed on as it is
   deriving Repr, Inhabited, BEq
 
 /-- a raised exception: its class (MRO via `Prims.isSub`) -/
@@ -101,6 +102,12 @@ inductive Spec where
   | switch (cases : List (Spec × Spec)) (dflt : Option Spec)
   | probe (id : Nat)                              -- harness object recording scope[MODE]
   | iter (sub : Spec) (viaMap : Bool)             -- Iter(sub) / Iter().map(sub): a lazily evaluated stream
+  | optKey (key : V)                              -- Optional(key) as a key of a match-mode dict (no default)
+  | reqKey (k : Spec)                             -- Required(k) as a key of a match-mode dict
+  | reenter (viaSpec : Bool) (s : Spec)
+      -- harness object: a nested top-level evaluation handed the running scope —
+      -- `glom(target, s, scope=scope)` / `Spec(s).glom(target, scope=scope)` (what First / Iter().first do)
+  | rprobe (id : Nat) (s : Spec)                  -- harness object: evaluates `s`, records what it yielded
   | inspect (s : Spec) (bp pm : Option (String × String))
       -- Inspect(s, breakpoint=bp, post_mortem=pm), not recursive: the callbacks are catalogue callables
   deriving Repr, Inhabited
@@ -108,6 +115,7 @@ inductive Spec where
 inductive Ev where
   | call (name : String) (args : List V)          -- a catalogue callable ran
   | probe (id : Nat) (mode : Mode)
+  | read (id : Nat) (r : Except Err V)            -- what the spec wrapped by read-probe `id` yielded
   deriving Repr, Inhabited
 
 structure St where
@@ -208,6 +216,21 @@ def callOpt (p : Prims) (cb : Option (String × String)) : M Unit :=
     let _ ← callFn p n k [] []
     pure ()
   | Option.none => pure ()
+
+/-- `f(*as, **kws)` for an evaluated callee: a catalogue callable is logged and run; a class is
+    Python's constructor (modelled for one positional argument); anything else is not callable -/
+def callValue (p : Prims) (f : V) (as : List V) (kws : List (String × V)) : M V :=
+  match f with
+  | .fn n k => callFn p n k as kws
+  | .ty n =>
+    match as, kws with
+    | [a], [] => M.lift (p.applyTy n a)
+    | _, _ => M.fail "Unsupported"
+  | _ => M.fail "TypeError"
+
+/-- `**kwargs`: every key must be a str (Python raises TypeError otherwise) -/
+def kwargsOf (es : List (V × V)) : Option (List (String × V)) :=
+  es.mapM (fun e => match e.1 with | .str s => some (s, e.2) | _ => Option.none)
 
 section loops
 variable {σ : Type} [ScopeAlg σ]
@@ -320,8 +343,13 @@ def coalesceLoop (p : Prims) (rec : Rec σ) (target : V) (sc : σ) (sk : Skip) (
     | .error e =>
       if caught p skipExc e then coalesceLoop p rec target sc sk skipExc rest else M.throw e
     | .ok r => do
-      if ← skipFunc p sk r.1 then coalesceLoop p rec target sc sk skipExc rest
-      else pure (some r.1)
+      -- `if not self.skip_func(ret): break` stands INSIDE the `try`: an exception of the skip
+      -- predicate that is in `skip_exc` passes on to the next alternative like one of the alternative
+      match ← M.attempt (skipFunc p sk r.1) with
+      | .error e =>
+        if caught p skipExc e then coalesceLoop p rec target sc sk skipExc rest else M.throw e
+      | .ok true => coalesceLoop p rec target sc sk skipExc rest
+      | .ok false => pure (some r.1)
 
 /-- `And._glomit`: every child on the same target, last result -/
 def andLoop (rec : Rec σ) (target : V) (sc : σ) : List Spec → V → M V
@@ -452,12 +480,19 @@ def Spec.isSpecLike : Spec → Bool
 /-- literal keys of a match-mode dict spec that are required (`_precedence == 0`) -/
 def requiredKeys (spec : List (Spec × Spec)) : List Spec :=
   (spec.map (·.1)).filter (fun k => match k with
-    | .str _ | .lit _ => true
+    | .str _ | .lit _ | .reqKey _ => true          -- `==` constants that are not Optional, and Required(…)
     | _ => false)
 
 def specEqLit : Spec → Spec → Bool
   | .str a, .str b => a == b
   | .lit a, .lit b => a == b
+  | .ty a, .ty b => a == b
+  | .optKey a, .optKey b => a == b
+  | .reqKey a, .reqKey b => specEqLit a b
+  -- (the same key object: recognised by its shape for the key forms Required wraps here)
+  | .aBind a, .aBind b => a == b
+  | .sBind as, .sBind bs => as.map (·.1) == bs.map (·.1)
+  | .letB as, .letB bs => as.map (·.1) == bs.map (·.1)
   | _, _ => false
 
 /-- read / write an attribute of a ScopeVars object -/
@@ -553,14 +588,15 @@ def glomit (p : Prims) (rec : Rec σ) (spec : Spec) (target : V) (sc : σ) : M (
     let kw ← argVal rec target kwargs sc
     -- `func(*args, **kwargs)`: Python unpacks any iterable (a tuple, a list, the keys of a dict, the
     -- characters of a str; the order of a set is CPython's business)
-    match f, kw with
-    | .fn n k, .dict _ kws =>
-      match starItems [a] with
-      | some as => do
-        let v ← callFn p n k as (strKeyed kws)
+    match kw with
+    | .dict _ kws =>
+      match starItems [a], kwargsOf kws with
+      | some as, some ks => do
+        let v ← callValue p f as ks
         pure (v, sc)
-      | Option.none => M.fail (match a with | .set .. => "Unsupported" | _ => "TypeError")
-    | _, _ => M.fail "TypeError"
+      | Option.none, _ => M.fail (match a with | .set .. => "Unsupported" | _ => "TypeError")
+      | _, Option.none => M.fail "TypeError"
+    | _ => M.fail "TypeError"
   | .invoke func funcIsSpec blocks => do
     let f ← (if funcIsSpec then do
         let r ← rec func target sc
@@ -569,11 +605,8 @@ def glomit (p : Prims) (rec : Rec σ) (spec : Spec) (target : V) (sc : σ) : M (
         | some v => pure v
         | Option.none => M.fail "TypeError" : M V)
     let (as, kws) ← invokeLoop rec target sc blocks [] []
-    match f with
-    | .fn n k => do
-      let v ← callFn p n k as kws
-      pure (v, sc)
-    | _ => M.fail "TypeError"
+    let v ← callValue p f as kws
+    pure (v, sc)
   | .ref name sub =>
     match sub with
     | Option.none =>
@@ -648,6 +681,27 @@ def glomit (p : Prims) (rec : Rec σ) (spec : Spec) (target : V) (sc : σ) : M (
     let vs ← (if viaMap then zipLoop rec sc items (List.replicate items.length sub) []
               else listLoop rec sub sc items [])
     pure (.stream vs, sc)
+  | .optKey k =>
+    -- `Optional.glomit`: an `==` constant (evaluated, like every key, in a frame of its own)
+    if p.eq target k then pure (target, sc) else M.fail "MatchError"
+  | .reqKey k =>
+    -- match-mode `_handle_dict` evaluates the wrapped key spec itself: its bindings go to the value
+    rec k target sc
+  | .reenter _ s => do
+    -- `glom()` / `Spec.glom()` given the running scope (a ChainMap of frames) build a new root frame and
+    -- `scope.update(<running scope>)`: everything the running scope shows — the innermost layer of a
+    -- name bound at several depths —, MODE included; nothing of the nested frames comes back
+    let r ← rec s target sc
+    pure (r.1, sc)
+  | .rprobe id s => do
+    -- harness object (a custom spec with a `glomit`): `scope[glom](target, s, scope)`, recorded, handed on
+    match ← M.attempt (rec s target sc) with
+    | .ok r => do
+      M.logEv (.read id (.ok r.1))
+      pure (r.1, sc)
+    | .error e => do
+      M.logEv (.read id (.error e))
+      M.throw e
   | .inspect s bp pm => do
     -- `Inspect.glomit`: `scope[Inspect] = scope[glom]; scope[glom] = self._trace`, then
     -- `scope[glom](target, self.wrapped, scope)` = `_trace`: it puts the real evaluator back (not
@@ -657,9 +711,12 @@ def glomit (p : Prims) (rec : Rec σ) (spec : Spec) (target : V) (sc : σ) : M (
     callOpt p bp
     match ← M.attempt (rec s target sc) with
     | .ok r => pure (r.1, sc)
-    | .error e => do
-      callOpt p pm
-      M.throw e
+    | .error e =>
+      -- (an error that only says "outside the modelled domain" is not an exception of the program)
+      if e.cls == "Unsupported" || e.cls == "OutOfFuel" then M.throw e
+      else do
+        callOpt p pm
+        M.throw e
   | _ => M.fail "Unsupported"
 
 /-- `_ArgValuator.mode`: containers rebuilt, everything else literal -/
@@ -677,6 +734,9 @@ def argModeFn (p : Prims) (rec : Rec σ) (spec : Spec) (target : V) (own : σ) :
   | .set fz xs => do
     let vs ← mapLoop rec target own xs []
     if vs.all p.hashable then pure (.set fz vs) else M.fail "TypeError"
+  -- only instances of EXACTLY dict / list / tuple / set / frozenset are rebuilt: an instance of a
+  -- subclass (OrderedDict) is a literal — the very object of the spec, its T leaves unevaluated
+  | .dict true _ => pure (.specobj "OrderedDict")
   | s => match reify s with
     | some v => pure v
     | Option.none => M.fail "Unsupported"
@@ -721,6 +781,7 @@ def fillFn (p : Prims) (rec : Rec σ) (spec : Spec) (target : V) (own : σ) : M 
     if vs.all p.hashable then pure (.set fz vs) else M.fail "TypeError"
   | .fn n k => callFn p n k [target] []
   | .ty n => M.lift (p.applyTy n target)
+  | .dict true _ => pure (.specobj "OrderedDict")         -- (see `argModeFn`)
   | s => match reify s with
     | some v => pure v
     | Option.none => M.fail "Unsupported"
